@@ -1105,6 +1105,10 @@ class StrategyBase(Node):
         for c in self._childrenv:
             if isinstance(c, StrategyBase):
                 c.set_commissions(fn)
+        # ... and the shadow copy that produces this sub-strategy's price index
+        paper = getattr(self, "_paper", None)
+        if paper is not None:
+            paper.set_commissions(fn)
 
     def get_transactions(self):
         """
